@@ -4,15 +4,17 @@ Deductive (pyvc + z3, real source of pymap/backend/maildir/mailbox.py): for appe
 list is written back it satisfies the file invariant (every recorded uid is positive, below next_uid and stored under its
 own uid), no record that was in the file has been dropped or replaced (no UID passes to a different message), next_uid
 has not gone down; append/copy/move hand out exactly the old next_uid and advance it by one, the message file enters the
-maildir before the list is written; reset (recovery) continues from the written next_uid.
+maildir before the list is written; reset (recovery) continues from the written next_uid.  contracts/mdio.py: the
+`UidList.with_write` these rely on is the exclusive lock of the list's lock file, held from before the read until after
+the write.
 Bounded, fault enumeration (decides the statement on its scope): harness/e2e_crash.py."""
 from pyvc.prop import Property, Bounded
-from . import maildir as MD
+from . import maildir as MD, mdio as IO
 from harness.e2e_crash import bounded_crash
 
 PROPERTY = Property(
     'C15', 'Maildir state survives restart and crashes without UID damage',
-    contracts=MD.CONTRACTS,
+    contracts=MD.CONTRACTS + IO.CONTRACTS, registry=IO.REG,
     bounded=[Bounded('every traced filesystem operation of short histories as the kill point, then restart (real MaildirBackend)',
                      '8 histories (thorough 11) of 4-9 commands over APPEND / UID STORE / UID COPY / UID MOVE / EXPUNGE / CREATE (incl. '
                      'nested) / RENAME / SUBSCRIBE / CHECK / CLOSE / STATUS; layouts ++ and fs; store on the temporary directory\'s '
@@ -23,7 +25,9 @@ PROPERTY = Property(
     level='other', design_ref='6 C15',
     explanation='deductive: the UID-assignment discipline around every write of the UID list (z3); the crash statement '
                 'itself is decided by exhaustive fault enumeration per history on the real backend',
-    trusted_base=['UidList.with_write reads the file under the write lock and writes it back when the block is left (io.py)',
+    trusted_base=['UidList.with_write reads the file under the write lock and writes it back when the block is left: the '
+                  'lock half is proved (contracts/mdio.py: the exclusive FileLock of the list\'s lock file, entered before '
+                  'the read, left after the write on every exit); FileLock itself is C20; file parsing/printing is not verified',
                   'what is read from the file satisfies UidListInv (established by the verified writers; file parsing/printing '
                   'not verified)', 'a kill loses user-space buffers only: os._exit-like crash, not power loss (no fsync is modelled)',
                   'leftover lock files are aged past FileLock\'s 600 s expiration before the restart',
